@@ -358,6 +358,15 @@ def r6_group_constraints(ctx):
               isinstance(c.args[1], ast.Name) and c.args[1].id == lp.target.id and enclosing(c, ast.For) is lp]
         if ip:
             scans.append((lp, ip[0]))
+    if len(scans) == 0:
+        # the scan loop is there but no longer asks ispart: the include constraint is tested by something weaker (or not at all)
+        loose = [n for n in walk_no_nested(f.node) if isinstance(n, ast.For) and 'nodes_list' in ast.unparse(n) and 'loose_list' in ast.unparse(n)]
+        if loose:
+            ctx.bad('R6.group-constraints', site(f, loose[0]), key(f, 'no-ispart'),
+                    'the paths of a synchronised group are not tested with ispart(<include list>, path): the ORDER of the include nodes '
+                    '(and their presence) is not what decides - an unsatisfiable STRICT list would be accepted',
+                    ast.unparse(loose[0])[:200])
+            return
     if len(scans) != 1:
         raise CannotAnalyse(f'compute_path_dsjctn: {len(scans)} scans of a combination with ispart')
     lp, ip = scans[0]
